@@ -935,6 +935,12 @@ func (e *Exec) applyContract(ct *Contract, fn *types.Func, sig *types.Signature,
 		sc := &Ctx{st: c.st, fr: cfr, spec: true, bound: bound, old: pre}
 		phi := e.evalCond(rq.Expr, sc)
 		name := fmt.Sprintf("%s#pre[%s:%s]", e.fnName, cname, rq.Label)
+		if e.inSpawn {
+			// a goroutine starts from an arbitrary later state: pre-conditions of its callees are the callees' data
+			// invariants, assumed here (the goroutine is checked for its frame and the monitor invariants only)
+			e.assume(c.st, phi)
+			continue
+		}
 		e.assert(c.st, name, "precondition", phi, rq.Text, e.prog.pos(call), e.modelVars(c.st, c.fr))
 	}
 	// termination of self-recursion: the measure decreases and is bounded below
